@@ -74,8 +74,10 @@ def model_line(case: dict[str, Any], eenc: list[str], probes: list[str]) -> str:
 
 
 def run_cases(ctx: core.Ctx, cases: list[dict[str, Any]], stream: str, envs: list[dict[str, Any]],
-              probes: list[str] | None = None) -> list[dict[str, Any]]:
-    """returns one record per case: {case, ok, result|error, text, bits, timeout, model}"""
+              probes: list[str] | None = None, keep_caches: bool = False) -> list[dict[str, Any]]:
+    """returns one record per case: {case, ok, result|error, text, bits, timeout, model}.
+    `keep_caches`: the memo tables of the real code are reset once, at the start, and the cases then run one after the
+    other on whatever state the earlier ones left (call-history streams); otherwise they are reset before every case."""
     eenc = [G.enc_env(e) for e in envs]
     probes = probes or []
     pv = [V.parse_probe(p) for p in probes]
@@ -84,7 +86,8 @@ def run_cases(ctx: core.Ctx, cases: list[dict[str, Any]], stream: str, envs: lis
     dis = 0
     for case, mo in zip(cases, model):
         rec: dict[str, Any] = {"case": case, "model": mo, "timeout": False}
-        MC.clear_caches()
+        if not keep_caches or not out:
+            MC.clear_caches()
         try:
             r = core.with_alarm(CASE_LIMIT, lambda: _impl_call(case))  # noqa: B023
             rec["ok"] = True
